@@ -282,6 +282,12 @@ class _Worker:
                         r['tsan'] = parse_tsan(new.decode('latin-1'))
                 except OSError:
                     pass
+                if case.get('exit_after'):
+                    # the harness leaves after this case: wait for it so that the next case finds a fresh process
+                    try:
+                        self.proc.wait(timeout=30)
+                    except Exception:
+                        pass
                 return r
             if line.startswith(b'T '):
                 err = self._stderr_text()
